@@ -48,7 +48,16 @@ def rot_angles(lo_exp=-15):
         logmag(lo_exp, 0.0).map(lambda d: PI - d),             # towards pi
         fl(0.0, PI),
         fl(0.0, PI),
+        decade_edge(max(lo_exp, -12)),                         # a hair either side of 10^-k from 0
+        decade_edge(max(lo_exp, -12)).map(lambda d: PI - d),   # ... and from pi
     )
+
+
+def decade_edge(lo_exp=-12):
+    """10^-k (1 +- e), e log-uniform 1e-13 .. 1e-2: the two sides of a round-number switch-over between code branches
+    (series / closed form, small-angle / general), where tests written in terms of an angle and of its sine or cosine
+    part company by a relative 1e-7 or less"""
+    return st.tuples(st.integers(1, -lo_exp), logmag(-13, -2), st.sampled_from([-1.0, 1.0])).map(lambda t: 10.0 ** (-t[0]) * (1.0 + t[2] * t[1]))
 
 
 def direction3():
